@@ -247,6 +247,7 @@ class Gen:
         self.names = sorted(OPS)
         self.weights = [OPS[n].weight for n in self.names]
         self.queue: list[dict] = []   # follow-up steps of a "twin query" (near-colliding variants of one query)
+        self.want_poke = False
         self.labels: dict[int, int] = {}   # label of a queued step -> index it was emitted at
         self.next_label = 0
 
@@ -315,7 +316,10 @@ class Gen:
         if rng.random() < cfg["p_evict_step"]:
             return {"i": i, "c": client, "op": "$evict", "args": [], "p": {"which": rng.choice([1, 2, 3])}, "out": [],
                     "mode": "env"}
-        if rng.random() < cfg.get("p_poke", 0.0):
+        force = self.want_poke and cfg.get("p_poke", 0.0) > 0 and rng.random() < 0.5
+        self.want_poke = False
+        if force or rng.random() < cfg.get("p_poke", 0.0):
+            # (forced: the previous step produced a result that exists only because a call promised a copy)
             st = self.poke_step(i, client, history)
             if st is not None:
                 return st
@@ -426,6 +430,8 @@ class Gen:
         return {"i": i, "c": client, "op": "$poke", "args": [slot], "p": p_, "out": [], "mode": "env"}
 
     def after(self, step: dict, world: W.World) -> None:
+        if step["op"] in self.FRESH_BY_CONTRACT or (step["op"] == "getitem" and _advanced((step.get("p") or {}).get("idx"))):
+            self.want_poke = any(world.has(s) for s in step["out"])
         for s in step["out"]:
             if world.has(s) and self.rng.random() < 0.35:
                 self.hot.append(s)
